@@ -149,9 +149,9 @@ _NEW = {
           text="The kernel preserves both sizes, the union and the intersection of the two hyperedges for every draw; one chain step (_mcmc_step), for every pair of positions, every reshuffle and either accept/reject outcome, keeps the length of the configuration, the size at every position and the number of hyperedges each node occurs in (fold-defined count, point-update lemma proved in Lean), so conditioned degrees and size counts are carried through the chain; the degree table maps each occurring degree to exactly the nodes having it. The acceptance numerics are declared opaque. sample / _match_sequences / _extract_hye are numpy Generator and iterator code: every sampled hypergraph is checked for the statement's clauses, the conditioning clauses on all initial hypergraphs of a small scope (incl. a maximum size below the largest initial hyperedge) and on random sequences; same seed => same samples.",
           design_ref='DESIGN.md §7 C16', assumptions=['hye_list_to_binary_incidence, HyMMSBM.poisson_params, HyMMSBM.log_kappa and _transition_prob are declared opaque in _mcmc_step: assumed not to modify the chain state (they receive tuples)', 'rng.choice / rng.random are havoc within their documented contracts']),
     'C18': dict(level="exploration",
-          technique='contract-based deductive verification (AST->VC, z3) of transition_matrix over an assumed numpy contract + bounded run-time contract checking of the random-walk operators (exact rationals as oracle) and of the contagion (exact synchronous reference for rates in {0,1})',
-          text='transition_matrix is proved to return the N x N table whose entry (i, j) is wsum(i, j) divided by the row sum of the table of all wsum(i, .), wsum adding (size - 1) over the hyperedges containing both i and j, and to raise AssertionError exactly when the hypergraph is not connected (labels 0..N-1 required). The quotient is uninterpreted, so row-stochasticity, the stationary state, densities, sampled walks and the contagion are bounded exploration over all connected hypergraphs on <= 5 nodes and all initial conditions, horizons and rate triples of a stated grid.',
-          design_ref='DESIGN.md §7 C18', assumptions=['numpy: np.zeros, a[i, j] += x, np.matrix, a.sum(axis=1), matrix / column, sparse.csr_matrix are modelled by an assumed library contract; the quotient is uninterpreted']),
+          technique='contract-based deductive verification (AST->VC, z3; finite-sum laws in Lean) of transition_matrix over an assumed numpy contract and of simplicial_contagion for every outcome of its random draws + bounded run-time contract checking of the random-walk operators (exact rationals as oracle) and of the contagion (exact synchronous reference for rates in {0,1})',
+          text='transition_matrix is proved to return the N x N table whose entry (i, j) is wsum(i, j) divided by the row sum of the table of all wsum(i, .), wsum adding (size - 1) over the hyperedges containing both i and j, and to raise AssertionError exactly when the hypergraph is not connected (labels 0..N-1 required). simplicial_contagion is proved, for all hypergraphs, 0/1 initial states, horizons, rates and all outcomes of the random draws, to perform synchronous steps in which a susceptible node is infected only through an infected pairwise neighbour (beta > 0) or a triangle whose two other members are infected (beta_D > 0) and certainly when such a source has rate >= 1, an infected node recovers only when mu > 0 and certainly when mu >= 1 (for rates in {0, 1}: exactly the deterministic spreading of the statement); the returned entries are the infected counts divided by the number of nodes, starting at the initial count, never decreasing when mu <= 0 and never increasing when both infection rates are <= 0. The quotient is uninterpreted, so row-stochasticity, the [0, 1] range, the stationary state, densities and sampled walks are decided by the bounded tier with exact rationals.',
+          design_ref='DESIGN.md §7 C18', assumptions=['numpy: np.zeros, a[i, j] += x, np.matrix, a.sum(axis=1), matrix / column, sparse.csr_matrix, np.linspace(0, 0, T), array / number are modelled by an assumed library contract; the quotient is uninterpreted', 'np.random.random() returns an arbitrary real in [0, 1)', 'vsum_mono / vsum_nonneg / vsum_zero (laws of a finite sum) are proved in lean/Vsum.lean, not by z3; that the trajectory is the iteration of the proved step is an informal induction over time']),
     'C20': dict(level="exploration",
           technique='contract-based deductive verification (AST->VC, z3) of s_betweenness / s_closeness / s_betweenness_nodes / s_closeness_nodes on top of the verified line_graph and bipartite_projection, networkx centralities uninterpreted + bounded run-time contract checking of all centralities against networkx on independently built projections, expm, and eigen-equation residuals',
           text="s_betweenness and s_closeness are proved to return exactly one value per hyperedge, namely networkx's betweenness / closeness of the vertex that the (verified) s-line graph's id table assigns to it. s_betweenness_nodes / s_closeness_nodes are proved to return exactly one value per node, the centrality of its vertex N<i> in the (verified) bipartite projection. The temporal averages, the sub-hypergraph centrality and CEC / HEC are floating point and networkx delegation: bounded exploration; CEC/HEC are judged only where an independent long-run iteration converges.",
